@@ -156,7 +156,9 @@ impl Dom for StrDom {
         s
     }
     fn shared() -> Arc<str> {
-        Arc::from("shared")
+        // non-ASCII up front: byte length and character count differ, and a value cut to the character count still ends
+        // on a character boundary (the harness never has to touch an invalid str)
+        Arc::from("éshared")
     }
     fn content(t: &str) -> Vec<u32> {
         t.bytes().map(|b| b as u32).collect()
@@ -555,8 +557,8 @@ fn public_api_part(ctx: &Ctx, res: &mut PartResult, depth: usize) {
                     };
                     let (k, want) = match op {
                         0 => (Key::from_static_parts("st", &L), "st|sk=sv,sk2=".to_string()),
-                        1 => (Key::from_parts(String::from("owned"), vec![Label::new(String::from("k"), String::from("v")), Label::new("s", SharedString::from_shared(Arc::from("arcv")))]), "owned|k=v,s=arcv".to_string()),
-                        2 => (Key::from_name(SharedString::from_shared(Arc::from("arcname"))), "arcname|".to_string()),
+                        1 => (Key::from_parts(String::from("owned"), vec![Label::new(String::from("k"), String::from("v")), Label::new("s", SharedString::from_shared(Arc::from("éarcv")))]), "owned|k=v,s=éarcv".to_string()),
+                        2 => (Key::from_name(SharedString::from_shared(Arc::from("éarcname"))), "éarcname|".to_string()),
                         3 => (Key::from_static_labels(String::with_capacity(32) + "cap", &L), "cap|sk=sv,sk2=".to_string()),
                         _ => (Key::from_parts("lit", Vec::<Label>::with_capacity(4)), "lit|".to_string()),
                     };
